@@ -76,11 +76,11 @@ Qed.
 
 End Sim.
 
-Theorem intersect_exact a b : wf a -> wf b -> nlen a * nlen b <= 65536 ->
+Theorem intersect_exact a b : wf a -> wf b ->
   exists i, intersect a b = Ok i /\ wf i /\ (ranges_ok a \/ ranges_ok b -> ranges_ok i)
             /\ forall s, matchp i s = Ok (accepts a 0 s && accepts b 0 s).
 Proof.
-  intros Hwa Hwb Hsize.
+  intros Hwa Hwb.
   assert (La : 0 < nlen a) by (destruct Hwa as [H _]; destruct a; [contradiction|rewrite nlen_cons; lia]).
   assert (Lb : 0 < nlen b) by (destruct Hwb as [H _]; destruct b; [contradiction|rewrite nlen_cons; lia]).
   assert (J0 : J a b (mkI [] [])).
@@ -91,14 +91,14 @@ Proof.
     - constructor.
     - intros ? ? ? [].
     - intros id x t N0. discriminate. }
-  destruct (state_for_spec a b Hsize (mkI [] []) 0 0 J0 La Lb) as (st0 & id0 & E0 & Hj0 & _ & I0).
+  destruct (state_for_spec a b (mkI [] []) 0 0 J0 La Lb) as (st0 & id0 & E0 & Hj0 & _ & I0).
   unfold intersect. rewrite E0.
   assert (Hid0 : In (0, 0, 0) (imap st0)).
   { unfold state_for in E0. cbn [lookup imap ires] in E0.
     destruct (nth_n a 0) as [x1|]; [|discriminate]. destruct (nth_n b 0) as [x2|]; [|discriminate].
     rewrite add_state_spec in E0. cbn [nlen] in E0. injection E0 as <- <-. left. reflexivity. }
   rewrite isect_flat.
-  destruct (ofold_spec a b Hwa Hwb Hsize (work a b) st0 [] Hj0 (fun x H => H) (fun x (H : In x []) => match H with end))
+  destruct (ofold_spec a b Hwa Hwb (work a b) st0 [] Hj0 (fun x H => H) (fun x (H : In x []) => match H with end))
     as (st & E & Hj & [X _] & Hall).
   rewrite E. exists (ires st).
   assert (Hall' : forall x, In x (work a b) -> has_edge st x).
@@ -112,21 +112,21 @@ Proof.
 Qed.
 
 (* in terms of Match alone *)
-Corollary intersect_match a b : wf a -> wf b -> nlen a * nlen b <= 65536 ->
+Corollary intersect_match a b : wf a -> wf b ->
   exists i, intersect a b = Ok i /\
     forall s, exists x y, matchp a s = Ok x /\ matchp b s = Ok y /\ matchp i s = Ok (x && y).
 Proof.
-  intros Hwa Hwb Hsize. destruct (intersect_exact a b Hwa Hwb Hsize) as (i & E & _ & _ & H).
+  intros Hwa Hwb. destruct (intersect_exact a b Hwa Hwb) as (i & E & _ & _ & H).
   exists i. split; [exact E|]. intro s. exists (accepts a 0 s), (accepts b 0 s).
   split; [apply matchp_accepts; exact Hwa|]. split; [apply matchp_accepts; exact Hwb|apply H].
 Qed.
 
 (* the form stated in Props/C13.v *)
-Theorem intersect_exact_match a b : wf a -> wf b -> nlen a * nlen b <= 65536 ->
+Theorem intersect_exact_match a b : wf a -> wf b ->
   exists i, intersect a b = Ok i /\ wf i /\ (ranges_ok a \/ ranges_ok b -> ranges_ok i) /\
     forall s, exists x y, matchp a s = Ok x /\ matchp b s = Ok y /\ matchp i s = Ok (x && y).
 Proof.
-  intros Hwa Hwb Hsize. destruct (intersect_exact a b Hwa Hwb Hsize) as (i & E & W & R & H).
+  intros Hwa Hwb. destruct (intersect_exact a b Hwa Hwb) as (i & E & W & R & H).
   exists i. split; [exact E|]. split; [exact W|]. split; [exact R|].
   intro s. exists (accepts a 0 s), (accepts b 0 s).
   split; [apply matchp_accepts; exact Hwa|]. split; [apply matchp_accepts; exact Hwb|apply H].
